@@ -180,6 +180,10 @@ def parse_kani(out, obligations):
     return res
 
 
+# CBMC's floating-point sanity checks (NaN produced by inf-inf, 0/0, ...) are not part of any contract:
+# NaN is a legitimate IEEE result for the language.
+IGNORED_CHECKS = [r"^NaN on (addition|subtraction|multiplication|division)"]
+
 UNDECIDED_PATTERNS = [
     r"unwinding assertion", r"is not currently supported", r"unsupported", r"not supported by Kani",
     r"reachability check", r"out of memory", r"recursion unwinding",
@@ -188,6 +192,10 @@ UNDECIDED_PATTERNS = [
 
 def classify_kani(r):
     """-> 'ok' | 'violation' | 'undecided' | 'vacuous'"""
+    r["failed_checks"] = [f for f in r["failed_checks"] if not any(re.search(p, f["check"]) for p in IGNORED_CHECKS)]
+    if r["status"] == "failed" and not r["failed_checks"] and r.get("failed", 0) > 0 and "NaN on" in r["raw"]:
+        r["status"] = "success"
+        r["ignored_float_nan_checks"] = True
     if r["status"] == "success":
         if r["covers"] is not None and r["covers"][0] < r["covers"][1]:
             return "vacuous"
